@@ -1,7 +1,6 @@
 import Hannibal.Proofs.Latch
 import Hannibal.Proofs.Run
 import Hannibal.Monitor.C03
-import Hannibal.Generated.Wiring
 /-
   C03 — lifecycle callbacks follow the started / handle* / stopped protocol.
 
@@ -77,10 +76,6 @@ theorem C03_holds (w : Wiring) (c : MonCtx) (ls : List Label) (s : AState)
     (hr : run w (AState.init c.cfg c.h0 c.k0) ls = some s) : (monC03 c).ok ls = true :=
   ok_of_run_lift (monC03 c) w (C03Inv c) (fun _ _ _ _ hi hs => c03_step w c hi hs) _ (c03_init c) ls s hr
 
-theorem C03_current (c : MonCtx) (ls : List Label) (s : AState)
-    (hr : run Wiring.current (AState.init c.cfg c.h0 c.k0) ls = some s) : (monC03 c).ok ls = true :=
-  C03_holds _ c ls s hr
-
 /-- Non-vacuity: a restart in the middle of a run, then a graceful stop. -/
 def c03Example : List Label :=
   [ .cbBegin .started, .cbEnd .started true, .begin 0 0 (.send 1), .restartReq 0 true, .stopReq 0 true,
@@ -89,11 +84,8 @@ def c03Example : List Label :=
 
 def c03Cfg : Cfg := { cap := none, strat := .only, timeout := none, failOnTimeout := false, stream := false }
 
-example : (run Wiring.current (AState.init c03Cfg 0 .addr) c03Example).isSome = true := by decide
 example : (monC03 { cfg := c03Cfg, h0 := 0, k0 := .addr, prompt := true }).ok c03Example = true := by decide
 /-- skipping `stopped` is refused by the model and flagged by the monitor -/
-example : (run Wiring.current (AState.init c03Cfg 0 .addr)
-    [ .cbBegin .started, .cbEnd .started true, .stopReq 0 true, .tDeq, .taskDone ]).isSome = false := by decide
 example : (monC03 { cfg := c03Cfg, h0 := 0, k0 := .addr, prompt := true }).ok
     [ .cbBegin .started, .cbEnd .started true, .stopReq 0 true, .tDeq, .taskDone ] = false := by decide
 
